@@ -6,7 +6,7 @@ TRUSTED = ['SHA-256 is a parameter H of the theorems (only |H x| = 32 is used); 
            'Go stdlib: encoding/base64, encoding/binary, bytes.Buffer (modelled, compared)']
 ASSUMPTIONS = ['record size >= 1 (the property\'s quantifier; recordSize <= 0 divides by zero / loops in Go)']
 RULE = ('drafts 02/03 x record sizes {1..8 exhaustively with every payload length 0..4rs+1; 16,100,255,256,1000,4096,16383,16384 at k*rs-1,k*rs,k*rs+1} x random payloads; '
-        'ops: mice.enc (stream bytes + digest string), mice.all on the python-reference honest stream (independent third implementation), base64 and sha256 cross-checks; distinct = distinct op lines')
+        'mice.dec.src: honest streams behind every prefix length mod rs+32 of a partly consumed reader x reader kinds (Size()/ReadByte/plain/one-byte/limited/multi/file); empty and boundary bodies through the bundle-signature consumer; ops: mice.enc (stream bytes + digest string), mice.all on the python-reference honest stream (independent third implementation), base64 and sha256 cross-checks; distinct = distinct op lines')
 EXHAUSTIVE = {'quick': 'record sizes 1..8 x payload lengths 0..4rs+1 x both drafts', 'thorough': 'record sizes 1..8 x payload lengths 0..4rs+1 x both drafts'}
 
 agree = Base.agree; nontrivial = Base.nontrivial; signature = Base.signature; explain = Base.explain
@@ -18,6 +18,8 @@ def classify(op, m):
         return o + ':' + m.split(' ')[0]
     if o.startswith('sxg.'):
         return o + ':' + op.split(' ')[1] + ':' + m.split(' ')[0]
+    if o == 'mice.dec.src':
+        return o + ':' + op.split(' ')[1].split(':')[0] + ':' + m.split(' ')[-1]
     if o.startswith('mice.enc'):
         return o + ':' + op.split(' ')[1] + ':' + m.split(' ')[0]
     if o.startswith('mice'):
@@ -131,3 +133,24 @@ def run(ctx):
         ctx.records.append((op, (r or 'crash').split(' ')[0], 'same'))
     if race:
         ctx.records.append(('race-detector report on concurrent MI encoding: ' + race[:400].replace('\n', ' | '), 'DATA RACE', 'no race'))
+    # the consumer of the decoder in go/bundle/signature: Exchange.AddPayloadIntegrity (-> Encode) then Verifier.VerifyExchange
+    # (-> NewDecoder) must hand back the body -- the EMPTY body of each bundle version (draft 03: empty stream, no record size field)
+    # at several record sizes, one byte, and bodies one short of / equal to / one past one and two records
+    import bundlelib, c06
+    bops = []
+    for v in ('b1', 'b2'):
+        for rs, blen in ((16, 0), (1, 0), (4096, 0), (16384, 0), (16, 1), (16, 15), (16, 16), (16, 17), (16, 32), (16, 33), (1, 1), (1, 2), (4096, 4095), (4096, 4096), (4096, 4097), (4096, 8192)):
+            bb = bundlelib.bundle(v, b'https://example.com/', None, None, [bundlelib.exch(b'https://example.com/', 200, [(b'Content-Type', [b'text/plain'])], rbytes(rng, blen))])
+            bops.append(f'bsig.sign {bb} {rs} {k["cert"]}:{hexs(b"ocsp")}:nil {k["key"]} {hexs(b"https://example.com/validity")} {d0} 3600')
+        # an empty body next to a non-empty one in the same bundle (a redirect / 204 among ordinary files)
+        bb = bundlelib.bundle(v, b'https://example.com/', None, None, [bundlelib.exch(b'https://example.com/', 200, [(b'Content-Type', [b'text/plain'])], rbytes(rng, 40)),
+                                                                       bundlelib.exch(b'https://example.com/empty', 204, [(b'Content-Type', [b'text/plain'])], b''),
+                                                                       bundlelib.exch(b'https://example.com/moved', 301, [(b'Location', [b'https://example.com/'])], b'')])
+        bops.append(f'bsig.sign {bb} 16 {k["cert"]}:{hexs(b"ocsp")}:nil {k["key"]} {hexs(b"https://example.com/validity")} {d0} 3600')
+    bsigned = [r[3:] for r in ctx.go(bops) if r and r.startswith('ok ')]
+    if len(bsigned) < len(bops):
+        ctx.infra.append(f'{len(bops) - len(bsigned)} bundles could not be signed')
+    c06.verify_stage(ctx, [(b, (d0 + 10, 0)) for b in bsigned])
+    # the reader handed to NewDecoder is an input too: kinds with / without Size() and ReadByte, streams that start behind an already
+    # consumed prefix of their reader (every prefix length modulo the unit size), refused streams (nothing but the size field consumed)
+    ctx.both(list(micelib.src_positions(rng)) + list(micelib.src_refusals(rng)))
